@@ -214,6 +214,7 @@ const (
 //     successive examinations (deadlock), or
 //   - the process has burned >= 20 s of CPU time since the operation started (spinning; operations
 //     need milliseconds).
+//
 // If neither becomes true within 5 more minutes the operation is abandoned as "stalled" and the case
 // is not judged (a note is recorded).
 func waitResult[T any](ch chan T, timeout time.Duration, out *T, r *core.Rec, gid *atomic.Int64) (int, string) {
